@@ -391,6 +391,80 @@ theorem ems_distance_of_force (d Lp Lc St kT : ℝ) (hd : 0 < d) (hLp : 0 < Lp) 
 example : ∃ d Lp Lc St kT : ℝ, 0 < d ∧ 0 < Lp ∧ 0 < Lc ∧ 0 < St ∧ 0 < kT :=
   ⟨17, 40, 16, 1500, 4.11, by norm_num, by norm_num, by norm_num, by norm_num, by norm_num⟩
 
+/-! ## eFJC and tWLC evaluate their published closed forms (the guards and masks are harmless) -/
+
+/-- tWLC: the three-way mask of the code (`g[f < Fc] = g0 + g1·Fc`, `g[f ≥ Fc] = g0 + g1·f`, zeros otherwise) is
+    the published twist–stretch coupling `g(F) = g0 + g1·max(F, Fc)` — continuous at the critical force, and the
+    "zeros otherwise" entry is never left in place for a real force. -/
+theorem twlc_g_published (f g0 g1 Fc : ℝ) : twlcG f g0 g1 Fc = g0 + g1 * max f Fc :=
+  twlcG_real f g0 g1 Fc
+
+/-- `twlc_distance` evaluates `Lc·(1 - ½√(kT/(F·Lp)) + C·F/(-g(F)² + St·C))`, Gross et al. (2011), for every input -/
+theorem twlc_distance_published (f Lp Lc St C g0 g1 Fc kT : ℝ) :
+    twlcDistance f Lp Lc St C g0 g1 Fc kT =
+      Lc * (1 - 1 / 2 * √(kT / (f * Lp)) + C / (-(g0 + g1 * max f Fc) ^ 2 + St * C) * f) :=
+  twlcDistance_real f Lp Lc St C g0 g1 Fc kT
+
+/-- eFJC: the "crude overflow protection" of `coth` (`1.0` for `|x| ≥ 500`) moves the value by less than
+    `2/(e¹⁰⁰⁰ - 1)` (< 1e-434) for every positive argument; below 500 it is `cosh x / sinh x` itself. -/
+theorem coth_guard_error (x : ℝ) (hx : 0 < x) :
+    |coth x - Real.cosh x / Real.sinh x| ≤ 2 / (Real.exp 1000 - 1) :=
+  coth_guard_error_aux x hx
+
+example : ∃ x : ℝ, 0 < x ∧ ¬ |x| < 500 := ⟨600, by norm_num, by norm_num⟩
+
+/-- `efjc_distance` evaluates the published `Lc·(coth(2F·Lp/kT) - kT/(2F·Lp))·(1 + F/St)`, Smith et al. (1996), for
+    every positive force and positive parameters, up to that guard error times `Lc·(1 + F/St)`. -/
+theorem efjc_distance_published (F Lp Lc St kT : ℝ) (hF : 0 < F) (hLp : 0 < Lp) (hLc : 0 < Lc) (hSt : 0 < St)
+    (hkT : 0 < kT) :
+    |efjcDistance F Lp Lc St kT
+        - Lc * (Real.cosh (2 * F * Lp / kT) / Real.sinh (2 * F * Lp / kT) - kT / (2 * F * Lp)) * (1 + F / St)|
+      ≤ Lc * (1 + F / St) * (2 / (Real.exp 1000 - 1)) := by
+  have hx : 0 < 2 * F * Lp / kT := by positivity
+  have hg := coth_guard_error (2 * F * Lp / kT) hx
+  have hform : efjcDistance F Lp Lc St kT = Lc * (coth (2 * F * Lp / kT) - kT / (2 * F * Lp)) * (1 + F / St) := by
+    simp only [efjcDistance]
+    have e1 : (1.0 : ℝ) = 1 := by norm_num
+    have e2 : (2.0 : ℝ) = 2 := by norm_num
+    rw [e1, e2]
+  rw [hform]
+  have hfac : 0 < Lc * (1 + F / St) := by positivity
+  have : Lc * (coth (2 * F * Lp / kT) - kT / (2 * F * Lp)) * (1 + F / St)
+        - Lc * (Real.cosh (2 * F * Lp / kT) / Real.sinh (2 * F * Lp / kT) - kT / (2 * F * Lp)) * (1 + F / St)
+      = Lc * (1 + F / St) * (coth (2 * F * Lp / kT) - Real.cosh (2 * F * Lp / kT) / Real.sinh (2 * F * Lp / kT)) := by
+    ring
+  rw [this, abs_mul, abs_of_pos hfac]
+  exact mul_le_mul_of_nonneg_left hg hfac.le
+
+example : ∃ F Lp Lc St kT : ℝ, 0 < F ∧ 0 < Lp ∧ 0 < Lc ∧ 0 < St ∧ 0 < kT :=
+  ⟨10, 0.7, 16, 750, 4.11, by norm_num, by norm_num, by norm_num, by norm_num, by norm_num⟩
+
+/-- Note (outside the property's range, forces are positive there): the second guard of the code, `abs(x) < -500`,
+    never holds, so for arguments `≤ -500` the code's `coth` is `+1` although the function tends to `-1`. -/
+theorem coth_negative_guard_dead : coth (-600 : ℝ) = 1 := by
+  rw [coth_real]; norm_num
+
+/-- `twlc_force` (and, through `inverse_round_trip`, `efjc_force`): the model hands the solver exactly
+    `twlc_distance` with its own eight parameters and the limits `(0, f_max)`, so a solver that answers within `tol`
+    on such problems makes `twlc_distance(twlc_force(d))` lie within `tol` of `d`. -/
+theorem twlc_force_round_trip (S : Solver ℝ) (tol : ℝ) (P : (ℝ → ℝ) → ℝ → ℝ → ℝ → Prop)
+    (hS : ∀ (i : Bool) (f : ℝ → ℝ) (lo hi y : ℝ), P f lo hi y → |f (S i f lo hi y) - y| ≤ tol)
+    (d Lp Lc St C g0 g1 Fc kT : ℝ)
+    (hP : P (fun f => twlcDistance f Lp Lc St C g0 g1 Fc kT) 0 (twlcFmax St C g0 g1) d) :
+    |twlcDistance (Kind.val S .twlcF d [Lp, Lc, St, C, g0, g1, Fc, kT]) Lp Lc St C g0 g1 Fc kT - d| ≤ tol := by
+  have := hS true (fun f => twlcDistance f Lp Lc St C g0 g1 Fc kT) 0 (twlcFmax St C g0 g1) d hP
+  simp only [Kind.val]
+  have e0 : (0.0 : ℝ) = 0 := by norm_num
+  rw [e0]
+  exact this
+
+example : ∃ (S : Solver ℝ) (tol : ℝ) (P : (ℝ → ℝ) → ℝ → ℝ → ℝ → Prop),
+    (∀ (i : Bool) (f : ℝ → ℝ) (lo hi y : ℝ), P f lo hi y → |f (S i f lo hi y) - y| ≤ tol) ∧
+    P (fun f => twlcDistance f 40 16 1500 440 (-637) 17 30.6 4.11) 0 (twlcFmax 1500 440 (-637) 17)
+      (twlcDistance 10 40 16 1500 440 (-637) 17 30.6 4.11) :=
+  ⟨fun _ _ _ _ _ => 10, 0, fun f _ _ y => f 10 = y, by
+    intro i f lo hi y h; simp [h], rfl⟩
+
 /-! ## model algebra: composites, offsets, inverses, DNA parametrisations -/
 
 section algebra
